@@ -123,13 +123,22 @@ func genOps(r *Rng, bl []gblock, nops int, adversarial bool, restarts bool) Sx {
 				inserted[y] = true
 			}
 			ops = append(ops, L(I(0), idList(p)))
-		case x < 58: // insert without head, usually followed by SetCanonical
+		case x < 58: // engine-API style: InsertBlockWithoutSetHead along a path, then SetCanonical of its tip
 			b := pick()
-			ops = append(ops, L(I(1), I(int64(b))))
-			if inserted[bl[b].parent] {
-				inserted[b] = true
-			}
+			p := []int{b}
 			if r.Chance(2, 3) {
+				p = pathTo(bl, b, func(y int) bool { return inserted[y] })
+				if len(p) == 0 || len(p) > 6 {
+					p = []int{b}
+				}
+			}
+			for _, y := range p {
+				ops = append(ops, L(I(1), I(int64(y))))
+				if inserted[bl[y].parent] {
+					inserted[y] = true
+				}
+			}
+			if r.Chance(3, 4) {
 				ops = append(ops, L(I(2), I(int64(b))))
 			}
 		case x < 72:
@@ -164,6 +173,104 @@ func genOps(r *Rng, bl []gblock, nops int, adversarial bool, restarts bool) Sx {
 	return ops
 }
 
+// two branches off a short common prefix; branch B repeats txs of branch A at other
+// heights and in its NON-head blocks (so that a multi-block reorg re-indexes them).
+// big: the blocks carry LOG-loop txs, several hundred logs each, so that reorg's 512-log
+// chunking of removed and re-added logs is crossed several times on both sides.
+func genTwoBranches(r *Rng, big bool) ([]gblock, []int, []int) {
+	bl := []gblock{{id: 0, used: map[int]bool{}}}
+	add := func(parent int, txs []int) int {
+		b := gblock{id: len(bl), parent: parent, number: bl[parent].number + 1, txs: txs}
+		bl = append(bl, b)
+		return b.id
+	}
+	tip := 0
+	for i := r.Intn(3); i > 0; i-- {
+		tip = add(tip, nil)
+	}
+	la, lb := r.Range(2, 5), r.Range(2, 5)
+	pool := r.Intn(nSmallTx - 12) // small tx ids pool, pool+1, ...
+	nextSmall := 0
+	small := func() int { nextSmall++; return pool + nextSmall - 1 }
+	var branchA, branchB []int
+	var txA [][]int
+	bigID := nSmallTx
+	p := tip
+	for i := 0; i < la; i++ {
+		var txs []int
+		if big {
+			for k := r.Range(1, 2); k > 0 && bigID < nTxIDs; k-- {
+				txs = append(txs, bigID)
+				bigID++
+			}
+		}
+		for k := r.Intn(3); k > 0 && nextSmall < 10; k-- {
+			txs = append(txs, small())
+		}
+		txA = append(txA, txs)
+		p = add(p, txs)
+		branchA = append(branchA, p)
+	}
+	// branch B: the txs of A, dealt out again over B's blocks in a shifted arrangement
+	var all []int
+	for _, t := range txA {
+		all = append(all, t...)
+	}
+	for i := len(all) - 1; i > 0; i-- { // shuffle
+		j := r.Intn(i + 1)
+		all[i], all[j] = all[j], all[i]
+	}
+	p = tip
+	for i := 0; i < lb; i++ {
+		var txs []int
+		take := len(all) / (lb - i)
+		if i < lb-1 && r.Chance(1, 2) && take < len(all) {
+			take++ // bias towards the non-head blocks
+		}
+		txs = append(txs, all[:take]...)
+		all = all[take:]
+		if r.Chance(1, 3) && nextSmall < 12 {
+			txs = append(txs, small())
+		}
+		p = add(p, txs)
+		branchB = append(branchB, p)
+	}
+	return bl, branchA, branchB
+}
+
+func noHeadThenCanonical(ops SL, branch []int) SL {
+	for _, y := range branch {
+		ops = append(ops, L(I(1), I(int64(y))))
+	}
+	return append(ops, L(I(2), I(int64(branch[len(branch)-1]))))
+}
+
+func genTwoBranchOps(r *Rng, a, b []int) SL {
+	ops := SL{}
+	if r.Bool() {
+		ops = append(ops, L(I(0), idList(a)))
+	} else {
+		ops = noHeadThenCanonical(ops, a)
+	}
+	switch r.Intn(4) {
+	case 0: // plain InsertChain reorg (newChain = [head] each time)
+		ops = append(ops, L(I(0), idList(b)))
+	default: // one multi-block reorg
+		ops = noHeadThenCanonical(ops, b)
+	}
+	// and back, in one step (both branches are stored with state)
+	if r.Chance(2, 3) {
+		ops = append(ops, L(I(2), I(int64(a[len(a)-1]))))
+	}
+	if r.Chance(1, 2) {
+		ops = append(ops, L(I(2), I(int64(b[r.Intn(len(b))]))))
+	}
+	if r.Chance(1, 3) {
+		ops = append(ops, L(I(0), idList(a)))
+	}
+	return ops
+}
+
 func gen(r0 *Rng, tier string, emit func(c Sx)) {
 	r := NewRng(r0.U64())
 	ncases := 110
@@ -171,6 +278,13 @@ func gen(r0 *Rng, tier string, emit func(c Sx)) {
 		ncases = 2500
 	}
 	for i := 0; i < ncases; i++ {
+		if i%5 == 2 || i%37 == 5 {
+			// two-branch families: multi-block SetCanonical reorgs with shared txs (every 5th
+			// case) and large reorgs crossing the 512-log chunk threshold (every 37th)
+			bl, a, b := genTwoBranches(r, i%37 == 5)
+			emit(SL{treeSx(bl), genTwoBranchOps(r, a, b), I(1)})
+			continue
+		}
 		n := r.Range(3, 26)
 		if i%7 == 0 {
 			n = r.Range(2, 6)
